@@ -37,7 +37,7 @@ ASSUMPTIONS = [
 ]
 REACH = {t: ["versions_11", "all_256_message_types", "rssi_min", "rssi_max", "empty_payload", "max_payload",
              "unicast", "multicast", "broadcast", "ignored_type", "join", "leave", "deny", "v14_layout",
-             "pre_v14_layout", "versions_mixed_in_one_process"] for t in ("quick", "thorough")}
+             "pre_v14_layout", "versions_mixed_in_one_process", "own_address_changed_mid_run"] for t in ("quick", "thorough")}
 SHARD_TIMEOUT = {"quick": 900, "thorough": 3600}
 ID_INCOMING = 0x45
 ID_TCJOIN = 0x24
@@ -91,7 +91,7 @@ def run_shard(desc) -> Acc:
             ap_.app.handle_join = lambda nwk, ieee, parent, *a, rec_=rec_, **k: rec_.append(("join", int(nwk), bytes(ieee.serialize()), int(parent)))
             ap_.app.handle_leave = lambda nwk, ieee, *a, rec_=rec_, **k: rec_.append(("leave", int(nwk), bytes(ieee.serialize())))
             acc.hit("v14_layout" if V_ >= 14 else "pre_v14_layout")
-            ctxs.append((V_, ap_.app, ap_.ncp, int(ap_.app.state.node_info.nwk), rec_))
+            ctxs.append([V_, ap_.app, ap_.ncp, int(ap_.app.state.node_info.nwk), rec_])
         types_seen = set()
         seq = 200
 
@@ -99,7 +99,23 @@ def run_shard(desc) -> Acc:
         n_in = 0
         for i in range(n):
             acc.case()
-            V, app, ncp, own_nwk, rec = ctxs[(i // 4 if len(ctxs) > 1 and (i // 64) % 2 else i) % len(ctxs)]
+            ctx = ctxs[(i // 4 if len(ctxs) > 1 and (i // 64) % 2 else i) % len(ctxs)]
+            if i % 61 == 60:
+                # the node's own network address changes (what load_network_info() does after a
+                # restore / re-form): later unicasts are addressed to the new one
+                import zigpy.state
+                import zigpy.types as zt_
+
+                new_nwk = rnd.choice([0x0000, 0x1A2B, rnd.randrange(1, 0xFFF7)])
+                old = ctx[1].state.node_info
+                if (i // 61) % 2:
+                    ctx[1].state.node_info = zigpy.state.NodeInfo(nwk=zt_.NWK(new_nwk), ieee=old.ieee, logical_type=old.logical_type)
+                else:
+                    old.nwk = zt_.NWK(new_nwk)
+                if new_nwk != ctx[3]:
+                    acc.hit("own_address_changed_mid_run")
+                ctx[3] = new_nwk
+            V, app, ncp, own_nwk, rec = ctx
 
             def inject(frame):
                 rec.clear()
